@@ -348,6 +348,7 @@ class WMSAuth(Harness):
         s = w.WMSServer(ctx['root'], {}, ['EPSG:4326'], {'image/png': types.SimpleNamespace(copy=lambda: types.SimpleNamespace(format=types.SimpleNamespace(mime_type='image/png')))})
         s.check_map_request = lambda r: None
         s.check_featureinfo_request = lambda r: None
+        s.on_error = cfg.get('on_error', 'raise')     # selects one of the two render loops of LayerRenderer
         if cfg.get('srs_extent'):
             # the service clips requests to a configured extent of the SRS: layers are then rendered for a sub-rectangle
             from mapproxy.srs import SRS
@@ -448,6 +449,10 @@ CANARIES = [
         "                              bbox=query.bbox, bbox_srs=params.srs, coverage=coverage)",
         "                              bbox=params.bbox, bbox_srs=params.srs, coverage=coverage)")]},
      dict(feature='map', request='g+c', srs_extent=True)),
+    ('wms: per-layer limit lost in the error-capturing render loop', 'WMSAuth', {'mapproxy.service.wms': [(
+        "                    layer_merger.add(layer_img, layer.coverage)\n                rendered += 1",
+        "                    layer_merger.add(layer_img)\n                rendered += 1")]},
+     dict(feature='map', request='g+c', on_error='notify')),
     ('wms: map permission also opens feature info', 'WMSAuth', {'mapproxy.service.wms': [(
         "                    if permissions.get(feature, False) is True:", "                    if permissions.get('map', False) is True or permissions.get(feature, False) is True:")]},
      dict(feature='featureinfo', request='a')),
@@ -462,10 +467,11 @@ def obligations(tier, seed):
     for feature in ('map', 'featureinfo'):
         for r in reqs:
             specs.append(spec(MOD, 'WMSAuth', 'wms-%s/request-%s' % (feature, r), cfg=dict(feature=feature, request=r), cost=40))
+    specs.append(spec(MOD, 'WMSAuth', 'wms-map/request-g+c/on-source-errors-notify', cfg=dict(feature='map', request='g+c', on_error='notify'), cost=40))
     specs.append(spec(MOD, 'WMSAuth', 'wms-map/request-g+c/limited-by-srs-extent', cfg=dict(feature='map', request='g+c', srs_extent=True), cost=40))
     specs.append(spec(MOD, 'TileAuth', 'twin/TileAuth', kind='witness', cfg=dict(service='tms')))
     specs.append(spec(MOD, 'WMSAuth', 'twin/WMSAuth', kind='witness', cfg=dict(feature='map', request='g')))
-    for label, h, patches, c in (CANARIES if tier == 'thorough' else CANARIES[:2] + CANARIES[4:9]):
+    for label, h, patches, c in (CANARIES if tier == 'thorough' else CANARIES[:2] + CANARIES[4:10]):
         specs.append(spec(MOD, h, 'canary/' + label, kind='canary', cfg=c, patches=patches, cost=20))
     return specs
 
